@@ -130,7 +130,10 @@ struct JSON {
                     break;
                 }
 
+                // Malformed: nothing parsed so far counts, and the parent must not carry on after it.
                 value.Reset();
+                offset = length;
+                return value;
             }
 
             ++offset;
@@ -167,7 +170,10 @@ struct JSON {
                     break;
                 }
 
+                // Malformed: nothing parsed so far counts, and the parent must not carry on after it.
                 value.Reset();
+                offset = length;
+                return value;
             }
 
             ++offset;
